@@ -1,0 +1,16 @@
+//go:build verif
+
+package usercmd
+
+// Contracts for the commands of this package (property C19).
+// Comment-only file: it is compiled only with -tags verif and contains no code.
+
+// A command that opens the cache in its pre-run (LoadBackend / LoadBackendEnsureUser - which takes the repository's
+// lock) runs its body inside CloseBackend, which gives the lock back on success and on failure (C19).
+//@ func NewUserCommand
+//@ func newUserAdoptCommand
+//@ func newUserNewCommand
+//@ func newUserShowCommand
+//@   props C19
+//@   stable execenv.lastLoader, execenv.lastCloser, all(cobra.Command.PreRunE), all(cobra.Command.RunE)
+//@   check [a-command-that-opens-the-cache-gives-it-back] cmd != nil && cmd.PreRunE == execenv.lastLoader && cmd.RunE == execenv.lastCloser
